@@ -91,8 +91,8 @@ def cases(tier, seed):
         for i in range(len(R) // 2):
             add(cfg, R[2 * i], R[2 * i + 1])
     # d = 7, 8: lazily filled sign table -- a FRESH algebra per case (a shared one would be warmed up by earlier cases)
-    for cfg in [dict(p=7), dict(p=4, q=2, r=1)] + ([dict(p=5, q=2, r=1)] if tier == 'thorough' else []):
-        dd = sum(cfg.values())
+    for cfg in [dict(p=7), dict(p=4, q=2, r=1), dict(p=4, q=1, r=2), dict(signature=[1, -1, 1, 0, 1, 1, -1])] + ([dict(p=5, q=2, r=1)] if tier == 'thorough' else []):
+        dd = len(cfg['signature']) if 'signature' in cfg else sum(cfg.values())
         R = pat.RND(dd, 12 if tier == 'quick' else 60, rng, max_len=5, min_len=1, order=list(range(2 ** dd)))
         for i in range(len(R) // 2):
             out.append(dict(kind='products', cfg=cfg, ka=list(R[2 * i]), kb=list(R[2 * i + 1]), defn=False, fresh=True))
